@@ -40,7 +40,7 @@ FRAGS = ["'", '"', "`", "\\", "$", "$(", ")", "(", "${", "}", "{", "|", "||", "&
          "0.5", "!", "!!", "%", "[", "]", "?", "\t", "alias", "alias Qz='vp_argv'", "Qz", "export", "cd", "unset", "read Qv <<< a",
          "source", "history", "jobs", "fg", "bg", "set -e", "ulimit -n", "vox", "cinfo", "minfd", "exec", "\\\n", "\\$", "\\|",
          "$(vp_out K)", "`vp_out K`", "$(vp_out >)", "$(", "$()", "``", "1 + ", "(", "((", "))", "{,}", "{..}", "{1..}", "{1..9999999999}",
-         "{1..3..0}", "{-5..5..2}", "a" * 50, "'" * 3, "\\" * 3, "🙂", "́", "​"]
+         "{1..3..0}", "{-5..5..2}", "a" * 50, "'" * 3, "\\" * 3, "🙂", "́", "​", "\u3000", "\u00a0", "\u2003", "\\\u3000", "\\\u00a0"]
 BANNED_WORDS = ("exit", "exec ")
 
 
@@ -229,7 +229,7 @@ def run(tier, seed):
         rep.inconc("harness: the in-process harness did not build, layer 1 not run (%s)" % why_not)
     thorough = tier == "thorough"
     rep.rule = ("layer 1: all strings of length<=%d over {' \" ` \\ $ ( ) { } | & > blank a} and all sequences of <=%d fragments of "
-                "{; < * ~ # , .. 1 + ^ = e-acute $X 2>&1} and of {| ( ) ' \" \\ $ blank e-acute CJK a > & ;} through line_to_cmds, parse_line, tokens_to_line, tokens_to_redirections, "
+                "{; < * ~ # , .. 1 + ^ = e-acute $X 2>&1}, of {| ( ) ' \" \\ $ blank e-acute CJK a > & ;} and of {\\ U+3000 U+00A0 U+2003 blank tab newline ; a | & ' \" $} through line_to_cmds, parse_line, tokens_to_line, tokens_to_redirections, "
                 "Command::from_tokens, CommandLine::from_line (+ first-word lookups), do_expansion, is_arithmetic/run_calculator, "
                 "script grammar, expand_args, trim_multiline_prompts, extend_bangbang, highlight, escaped_word_start + the slice "
                 "lineread takes, with X='$X' Y='$Z' Z='$Y'; layer 2: grammar/mutation generated lines through -c, script+sentinel, "
@@ -250,6 +250,8 @@ def run(tier, seed):
         jobs.append(common.FileProc([harness, "c05", "B", str(lb), str(i), str(n), os.path.join(scratch, "b%d" % i)]))
     for i in range(n if harness else 0):
         jobs.append(common.FileProc([harness, "c05", "C", str(lb), str(i), str(n), os.path.join(scratch, "c%d" % i)]))
+    for i in range(n if harness else 0):
+        jobs.append(common.FileProc([harness, "c05", "D", str(lb), str(i), str(n), os.path.join(scratch, "d%d" % i)]))
     l1_strings = 0
     for p in jobs:
         o, _ = p.communicate()
